@@ -132,6 +132,23 @@ def run_config(args):
         return len(s.u.source_to_iso_name) > 0 or len(s.u.data) > 0 if hasattr(s.u, "data") else True
 
     res = xstate.bfs(Pair(mode, entries, extra), enabled, step, key, max_states=max_states, nontrivial=nontrivial, stop_after=6)
+    long_n = args[4] if len(args) > 4 else 0
+    if long_n and not res.violations:
+        # a long-lived decoder: the N-th occurrence of an input is filtered like the first (round-robin over the alphabet,
+        # then every event repeated on its own); beyond the reach of the fixed-point search only if the decoder counts
+        pair = Pair(mode, entries, extra)
+        order = [names[i % len(names)] for i in range(long_n)] + [n for n in names for _ in range(long_n // 2)]
+        for i, name in enumerate(order):
+            v = step(pair, name)
+            res.transitions += 1
+            if v:
+                for x in v:
+                    x = dict(x)
+                    x["facts"] = dict(x.get("facts", {}), mechanism="depends_on_occurrence_count")
+                    x["detail"] += f" (input number {i + 1} of a long run on one decoder)"
+                    x["case"] = dict(x.get("case", {}), long_run=i + 1)
+                    res.violations.append(x)
+                break
     return {"states": res.states, "transitions": res.transitions, "depth": res.max_depth, "closed": res.closed, "cap": res.cap_hit,
             "nontrivial": res.nontrivial, "violations": res.violations, "sample": res.samples[:1]}
 
@@ -150,7 +167,8 @@ def run(ctx):
     cfgs = [(m, e, "plain") for m, e in configs(ctx)]
     for extra in ("map", "units+mfr"):
         cfgs += [(m, e, extra) for m, e in configs(ctx) if len(e) <= (2 if ctx.thorough else 1)]
-    results = common.pmap(run_config, [(m, e, 20000, x) for m, e, x in cfgs], chunksize=4)
+    # the long run (2200 inputs round-robin, then 1100 of each event) on the empty and the single-entry configurations
+    results = common.pmap(run_config, [(m, e, 20000, x, 2200 if (len(e) <= 1 and x == "plain") else 0) for m, e, x in cfgs], chunksize=2)
     vios = []
     states = trans = nontriv = 0
     closed = True
@@ -171,7 +189,7 @@ def run(ctx):
         "rule": "BFS states of (filtered decoder, unfiltered decoder) per configuration; every transition feeds one event to both; "
                 "non-trivial = a state in which a source has claimed or a fast-packet message is partly received",
         "samples": samples, "configurations": len(cfgs), "max_depth": depth,
-        "bound_completed": f"fixed point in every configuration; configurations = exclude/include x all subsets of <= {3 if ctx.thorough else 2} of 14 entries + empty",
+        "bound_completed": f"fixed point in every configuration, plus a run of 2200 + 19 x 1100 inputs on one decoder for the empty and single-entry configurations; configurations = exclude/include x all subsets of <= {3 if ctx.thorough else 2} of 14 entries + empty",
         "exhaustive": closed,
     }
     return {"coverage": cov, "violations": vios,
@@ -182,6 +200,9 @@ def replay(ctx, rep):
     c = rep["case"]
     entries = tuple(c["entries"])
     evs = events()
+    if c.get("long_run"):
+        r = run_config((c["mode"], entries, 10, c.get("extra", "plain"), 2200))
+        return [v for v in r["violations"] if v.get("case", {}).get("long_run")][:1]
     s = Pair(c["mode"], entries, c.get("extra", "plain"))
     for name in c["history"]:
         (mf, ef), (mu, eu) = step_pair(s, evs[name])
